@@ -100,6 +100,15 @@ def doc_cases(ctx, budget):
                 k = shape.count('%s')
                 for i in range(k):
                     out.append((shape % tuple(at if j == i else '' for j in range(k)), root, PREFIXES[(i + len(v)) % len(PREFIXES)]))
+    # size: nums of 100 / 250 / 300 / 1 000 characters (a definition pasted into the number), nests of 24 / 40 / 70 provisions with ordinary
+    # nums, a long prefix - ids grow without bound and stay distinct
+    for n in (100, 250, 300, 1000):
+        out.append(('PARA ' + 'a' * n + '\n  some text\n\n  more text\n', 'doc', ''))
+        out.append(('SEC ' + 'a' * n + '\n  some text\n  SUBSEC (1)\n    x\n  SUBSEC (2)\n    y\n', 'hier_element', 'chp_1'))
+        out.append(('PART ' + ' '.join('w%d' % i for i in range(n // 4)) + ' - h\n  SEC 1\n    x\n  SEC 2\n    y\n', 'act', ''))
+    for depth in (24, 40, 70):
+        out.append((''.join('  ' * i + 'SUBPARA (a)\n' for i in range(depth)) + '  ' * depth + 'text\n' + '  ' * depth + 'more\n', 'doc', ''))
+        out.append((''.join('  ' * i + 'SEC %d\n' % (i + 1) for i in range(depth)) + '  ' * depth + 'text\n', 'act', 'part_' + 'x' * 40))
     return out
 
 def _doc_oracle(args):
